@@ -1235,10 +1235,14 @@ class ProgramData:
 
         id_obj = id(obj) if type(obj) is not int else obj
 
-        # Ensure consistency
+        # Ensure consistency: what is stored under this id may belong to an object that no longer exists (ids are reused)
         if type(obj) is int and obj in cls._refmap and cls._refmap[obj]() is None:
             del cls._refmap[id_obj]
             cls._collection[id_obj] = {}
+        elif type(obj) is not int and id_obj in cls._refmap and cls._refmap[id_obj]() is not obj:
+            del cls._refmap[id_obj]
+            cls._collection[id_obj] = {}
+            cls._children[id_obj] = []
 
         if tag not in ProgramData._collection[id_obj]:
             if isinstance(obj, HasDefaultDebugInfo):
